@@ -12,6 +12,7 @@ EXPLANATION = ("C14: pipe callbacks are invoked only from nni_pipe_run_cb, behin
                " Also: s_want_evs is recomputed on every registration change (R7) and the redial back-off is clamped after every growth (R8).")
 EXPLANATION += " Round 3: an operation taken from another endpoint's list is not completed with a code that ends a redial loop (R9)."
 EXPLANATION += " Round 5: the connect slot of a transport can be entered again -- no refusal hangs on a one-way latch (R12); a transport that creates the pipe before the connection is confirmed settles the parked connect wherever it gives that pipe up (R13)."
+EXPLANATION += ' Taking the head of an array queue moves every remaining entry down by one (R14).'
 
 
 def rule_r1(ctx):
@@ -582,6 +583,79 @@ def rule_r13(ctx):
         raise AnalysisBroken("only %d pipe give-up sites in transports with early pipes" % n)
 
 
+# ---------------------------------------------------------------------------
+# R14: taking the head of an array queue moves every remaining entry down by one
+
+def _idx_parts(f, n):
+    """(array field, variable, constant offset) of  X->Q[v + k]"""
+    if n is None or n.get("k") != "idx":
+        return None
+    arr = last_field(f.expand(n["b"]))
+    i = f.expand(n["i"])
+    while i is not None and i.get("k") == "cast":
+        i = i["e"]
+    if i is None or arr is None:
+        return None
+    if const_of(i) is not None:
+        return (arr, None, const_of(i))
+    if i.get("k") == "var":
+        return (arr, i["n"], 0)
+    if i.get("k") == "bin" and i.get("op") in ("+", "-") and i["lhs"].get("k") == "var" and const_of(i["rhs"]) is not None:
+        k = const_of(i["rhs"])
+        return (arr, i["lhs"]["n"], k if i["op"] == "+" else -k)
+    return None
+
+
+def rule_r14(ctx):
+    r = ctx.rule("C14.R14", "T3", "a listener that keeps pending connections in an array hands each of them out once: the function that takes "
+                 "slot 0 and decrements the count moves every remaining entry down by exactly one slot, starting with the "
+                 "overwrite of slot 0 (store index = load index - 1, first store index 0) -- otherwise the entry just handed out "
+                 "is handed out again and the others are lost", floor=1)
+    prog = ctx.prog
+    n = 0
+    for f in prog.functions:
+        if f.cfg_failed or f.file.endswith("_test.c") or not ("/core/" in "/" + f.file or "/sp/" in "/" + f.file or "/platform/" in "/" + f.file):
+            continue
+        # reads Q[0] of an array field
+        heads = []
+        for t in f.sites():
+            for m in walk(t.node):
+                if m.get("k") == "idx":
+                    ip = _idx_parts(f, m)
+                    if ip and ip[1] is None and ip[2] == 0 and not (t.node.get("k") == "asg" and t.node["lhs"] is m):
+                        heads.append((ip[0], t))
+        if not heads:
+            continue
+        decs = [t for t in f.sites() if t.node.get("k") == "un" and t.node.get("op") == "--" and t.node["e"].get("k") == "mem"]
+        if not decs:
+            continue
+        for arr in sorted({a for a, _ in heads}):
+            shifts = []
+            for t in f.assigns():
+                l, rr = _idx_parts(f, t.node["lhs"]), _idx_parts(f, f.expand(t.node["rhs"]))
+                if l and rr and l[0] == arr and rr[0] == arr and l[1] is not None and l[1] == rr[1]:
+                    shifts.append((t, l, rr))
+            if not shifts:
+                continue
+            for t, l, rr in shifts:
+                n += 1
+                inits = [const_of(d) for _, d in G.var_defs(f, l[1]) if d is not None and const_of(d) is not None]
+                first = (min(inits) + l[2]) if inits else None
+                if rr[2] - l[2] != 1:
+                    ctx.fail(r, f, "queue shift does not move entries down by one", t.line,
+                             "%s stores %s[%s%+d] = %s[%s%+d]: entries are not moved one slot towards the head" % (f.name, arr, l[1], l[2], arr, rr[1], rr[2]))
+                elif first != 0:
+                    ctx.fail(r, f, "slot 0 of %s is never replaced" % arr, t.line,
+                             "%s takes %s[0] and shifts with %s[%s%+d] = %s[%s%+d] starting at %s = %s: the first store goes to slot %s, "
+                             "slot 0 keeps the entry that was just handed out (it is handed out again, the entry that should "
+                             "have moved there is lost) and the last load reads one slot past the entries"
+                             % (f.name, arr, arr, l[1], l[2], arr, rr[1], rr[2], l[1], min(inits) if inits else "?", first))
+                else:
+                    r.ob(f, "%s: %s[0] taken, remaining entries moved down by one starting at slot 0" % (f.name, arr))
+    if n < 1:
+        raise AnalysisBroken("no array queue with a head removal found (sfd_start_conn)")
+
+
 def run(ctx):
     ctx.guard(rule_r1)
     ctx.guard(rule_r2)
@@ -597,3 +671,4 @@ def run(ctx):
     ctx.guard(rule_r11)
     ctx.guard(rule_r12)
     ctx.guard(rule_r13)
+    ctx.guard(rule_r14)
